@@ -82,6 +82,11 @@ class TlcResult:
         self.generated = int(m.group(1)) if m else 0
         self.distinct = int(m.group(2)) if m else 0
         self.left = int(m.group(3)) if m else -1
+        sim = re.search(r"The number of states generated: (\d+)", out)
+        if sim and not m:      # -simulate: behaviours are walked, states are not stored
+            self.generated = int(sim.group(1))
+            self.distinct = int(sim.group(1))
+            self.left = 0
         self.finished = "Model checking completed. No error has been found." in out or (
             "Finished in" in out and "Error:" not in out
         )
